@@ -291,8 +291,10 @@ def render_v3000(mol: Mol, style: V3Style | None = None, rng: random.Random | No
             kws.append("RAD=0"); obs["explicit_default"] = obs.get("explicit_default", 0) + 1
         if mass_kw:
             kws.append(f"MASS={mass_kw}")
-        elif sym not in ("D", "T") and rng.random() < style.explicit_defaults:
+        elif rng.random() < style.explicit_defaults:
             kws.append("MASS=0"); obs["explicit_default"] = obs.get("explicit_default", 0) + 1
+            if sym in ("D", "T"):
+                obs["explicit_default_mass_on_DT"] = obs.get("explicit_default_mass_on_DT", 0) + 1
         for kw in ATOM_EXTRA_KEYWORDS:
             if rng.random() < style.extra_atom_kw / 4:
                 kws.append(kw)
